@@ -89,3 +89,11 @@ def unf_fail(key, ctr, buf):
     if not open_ok(key, nonce(ctr), buf[:2], buf[2:frame_len(buf)]):
         return True
     return unf_fail(key, ctr + 1, buf[frame_len(buf):])
+
+
+@spec(args=[Bytes], ret=BList)
+def chunks1024(p):
+    """the payload cut into chunks of at most 1024 bytes"""
+    if len(p) == 0:
+        return []
+    return [p[:1024]] + chunks1024(p[1024:])
